@@ -47,8 +47,7 @@ func raceLogSince(off int64) string {
 const cloverPkg = "github.com/ostafen/clover/v2"
 
 // cloverRaces returns the race reports in which one of the two racing accesses
-// is made by clover code (the access's own frame, or - when the access is made
-// by a runtime helper such as a map or slice routine - its caller).
+// is made by clover code or by library code called from clover (not through the harness).
 func cloverRaces(log string) []string {
 	var out []string
 	for _, block := range strings.Split(log, "==================") {
@@ -63,19 +62,24 @@ func cloverRaces(log string) []string {
 			if !isAccess {
 				continue
 			}
-			// frames follow: function line, then file line
+			// frames follow (function line, then file line), innermost first. The access
+			// is attributed to the first frame that belongs either to clover or to the
+			// harness: memory touched by a library on behalf of clover (a shared
+			// bufio.Reader behind an id generator, a map helper of the runtime) is
+			// clover's responsibility; memory touched on behalf of the harness (its id
+			// generator seam, its decorator, its scheduler) is harness noise.
 			for j := i + 1; j+1 < len(lines); j += 2 {
 				fn := strings.TrimSpace(lines[j])
 				if fn == "" {
 					break
 				}
-				if strings.HasPrefix(fn, "runtime.") {
-					continue // runtime helper: look at its caller
-				}
 				if strings.HasPrefix(fn, cloverPkg) {
 					hit = true
+					break
 				}
-				break
+				if strings.HasPrefix(fn, "verif/") || strings.HasPrefix(fn, "main.") {
+					break
+				}
 			}
 		}
 		if hit {
